@@ -45,6 +45,10 @@ class Survival:
             cls = 'daemon_failed_to_start'
             sig = {'exception': node.start_error[0]}
         self.w.violation(self.prop, cls, sig, detail)
+        if cls == 'installed_but_untracked_after_refused_delsa':
+            # recorded (known finding F17) and excused, so that the rest of the run is still judged
+            self.excused.setdefault(node.name, set()).update(extra)
+            return
         if self.poison:
             self.w.poisoned = True
 
@@ -66,3 +70,82 @@ def data_plane_probe(world, a, b, flow):
 
 def reverse_flow(flow):
     return dict(flow, saddr=flow['daddr'], daddr=flow['saddr'], sport=flow['dport'], dport=flow['sport'])
+
+
+TYPE_NAMES = {K['XFRM_MSG_NEWSA']: 'NEWSA', K['XFRM_MSG_DELSA']: 'DELSA', K['XFRM_MSG_NEWPOLICY']: 'NEWPOLICY',
+              K['XFRM_MSG_FLUSHSA']: 'FLUSHSA', K['XFRM_MSG_FLUSHPOLICY']: 'FLUSHPOLICY'}
+
+
+def tracked_kernel_keys(node):
+    """(daddr_raw, proto, spi) of both directions of every CHILD_SA of every IKE_SA in the node's table."""
+    from .kernel import _addr_raw
+    out = set()
+    for sa in node.ike_sas():
+        for ch in sa.child_sas:
+            proto = K['IPPROTO_ESP'] if int(ch.proposal.protocol_id) == 3 else K['IPPROTO_AH']
+            out.add((_addr_raw(sa.peer_addr), proto, bytes(ch.outbound_spi)))
+            out.add((_addr_raw(sa.my_addr), proto, bytes(ch.inbound_spi)))
+    return out
+
+
+class LedgerInvariant:
+    """C10: after every processed event the kernel SAD (additions minus deletions) equals the CHILD_SAs the daemon
+    tracks."""
+
+    def __init__(self, world, prop='C10', poison=True):
+        self.w = world
+        self.prop = prop
+        self.poison = poison
+        self.checks = 0
+        self.nonempty = 0
+        self.mark = {}
+        self.ctx = {}
+        self.excused = {}          # node -> keys already reported under the refused-DELSA finding
+        world.monitors.append(self)
+
+    def before_step(self, node, cause):
+        self.mark[node.name] = node.kernel.req_no
+        heads = [q.queue[0][0] for q in node.udp.values() if q.queue] if node.udp else []
+        self.ctx[node.name] = heads
+
+    def after_step(self, node, cause):
+        if node.state != 'running' or node.exited or node.controller is None:
+            return
+        led = node.kernel.ledger_set() - self.excused.get(node.name, set())
+        trk = tracked_kernel_keys(node)
+        self.checks += 1
+        if led or trk:
+            self.nonempty += 1
+        if led == trk:
+            return
+        from .observe import parse_header, EXCH
+        since = [r for r in node.kernel.requests if r['no'] > self.mark.get(node.name, 0)]
+        inj = sorted({TYPE_NAMES.get(r['type'], str(r['type'])) for r in since if r.get('injected')})
+        ck = cause[0] if isinstance(cause, tuple) else cause
+        heads = self.ctx.get(node.name, [])
+        h = parse_header(heads[0]) if heads else None
+        trig = ck if not h else f'{EXCH.get(h["exch"], h["exch"])}.{"res" if h["R"] else "req"}'
+        extra, missing = led - trk, trk - led
+        cls = 'installed_but_untracked' if extra else 'tracked_but_absent'
+        sig = {'trigger': trig, 'injected': '+'.join(inj) if inj else 'none'}
+        if extra and not missing:
+            # is every untracked SA one whose deletion the kernel refused (injected errno on that very DELSA)?
+            refused = set()
+            for r in node.kernel.requests:
+                d = r.get('decoded')
+                if r.get('injected') and d and d.get('kind') == 'delsa':
+                    refused.add((d['id']['daddr_raw'], d['id']['proto'], d['id']['spi']))
+            if extra <= refused:
+                cls = 'installed_but_untracked_after_refused_delsa'
+                sig = {}
+        fmt = lambda ks: sorted(f'{k[0][:16].hex().rstrip("0") or "0"}/{k[1]}/{k[2].hex()}' for k in ks)
+        self.w.violation(self.prop, cls, sig,
+                         f'{node.name} after {trig} (injected kernel errors: {inj or "none"}): kernel has {fmt(extra)} untracked; '
+                         f'daemon tracks {fmt(missing)} absent from the kernel; requests in this step: '
+                         f'{[(TYPE_NAMES.get(r["type"], r["type"]), r["errno"]) for r in since]}')
+        if cls == 'installed_but_untracked_after_refused_delsa':
+            # recorded (known finding F17) and excused, so that the rest of the run is still judged
+            self.excused.setdefault(node.name, set()).update(extra)
+            return
+        if self.poison:
+            self.w.poisoned = True
